@@ -381,6 +381,67 @@ def stage_std(rep, gi):
 
 
 # ------------------------------------------------------------------ settle
+def state_stream(rep, rng, count):
+    """Oracle-only stream on the real objects: evaluation is a function of the circuit alone.
+    (a) What eval() returns is the caller's: overwriting the returned array in place does not change
+    what the gate constants (H, S, T, X, Y, Z, CX, CZ, SWAP, Controlled(...)) evaluate to afterwards.
+    (b) Basis states given with booleans, numpy integers or ints, in any order of evaluation: integer
+    kets / bras / bits evaluate to the basis vectors whatever was evaluated before."""
+    import numpy
+    from discopy.quantum import gates as G
+    consts = [("H", G.H), ("S", G.S), ("T", G.T), ("X", G.X), ("Y", G.Y), ("Z", G.Z), ("CX", G.CX), ("CZ", G.CZ),
+              ("SWAP", G.SWAP), ("Controlled(Z)", G.Controlled(G.Z)), ("Rz(0.25)", G.Rz(0.25)), ("Ket(1)", G.Ket(1))]
+    bad = 0
+
+    def fail(what):
+        nonlocal bad
+        bad += 1
+        rep.count("oracle:state:FAIL")
+        if bad <= 4:
+            rep.violation(what, {"oracle": "O_state"})
+    for k in range(count):
+        rep.count("stream:state")
+        try:
+            name, g = consts[k % len(consts)]
+            ref = numpy.array(g.eval().array, dtype=complex).copy()
+            got = g.eval()
+            arr = got.array
+            try:
+                arr[...] = 0                      # the caller scribbles over its own result
+            except (ValueError, TypeError):       # a read-only result is fine too
+                pass
+            again = numpy.array(g.eval().array, dtype=complex)
+            if again.shape != ref.shape or not numpy.allclose(again, ref):
+                fail("%s.eval() changed after the array returned by an earlier %s.eval() was overwritten in place" % (name, name))
+                continue
+            if len(g.dom) == len(g.cod):
+                n = len(g.dom)
+                prod = numpy.array((g >> g.dagger()).eval().array, dtype=complex).reshape(2 ** n, 2 ** n)
+                if not numpy.allclose(prod, numpy.eye(2 ** n)):
+                    fail("%s >> %s.dagger() is no longer the identity after an evaluated array was overwritten" % (name, name))
+                    continue
+            # (b) booleans / numpy ints first, ints afterwards
+            bits = [rng.randint(0, 1) for _ in range(rng.randint(1, 3))]
+            for maker in (lambda bs: G.Ket(*[bool(b) for b in bs]), lambda bs: G.Bra(*[numpy.int64(b) for b in bs]),
+                          lambda bs: G.Bits(*[bool(b) for b in bs])):
+                try:
+                    maker(bits).eval()            # result ignored: only what it leaves behind matters
+                except Exception:                 # noqa
+                    pass
+            want = numpy.zeros(2 ** len(bits), dtype=complex)
+            want[int("".join(map(str, bits)), 2)] = 1
+            for nm, box in (("Ket", G.Ket(*bits)), ("Bra", G.Bra(*bits)), ("Bits", G.Bits(*bits))):
+                v = numpy.array(box.eval().array, dtype=complex).flatten()
+                if v.shape != want.shape or not numpy.allclose(v, want):
+                    fail("%s%r evaluates to %r after the same bits were evaluated as booleans / numpy integers" % (
+                        nm, tuple(bits), list(v)))
+                    break
+            else:
+                rep.count("oracle:state:pass")
+        except Exception as exc:   # noqa
+            fail("state stream raised %s: %s" % (type(exc).__name__, exc))
+
+
 def settle(rep, gi, proof_ok):
     """Turn unexplained correspondence disagreements / a broken proof stage into
     violations (after the oracles had their chance to find a failing input)."""
@@ -439,6 +500,9 @@ def run(tier, seed):
     else:
         proof_ok = common.proof_stage(rep, "C11")
     rng = random.Random(seed)
+    # first of all, while nothing has been evaluated in this process yet: state left behind by one
+    # evaluation for the next (caches, shared buffers) shows only on the first encounter
+    state_stream(rep, random.Random(seed + 111), 40 if tier == "quick" else 600)
     stage_std(rep, gi)
 
     cases = gen_cases(gi, rng, tier)
